@@ -40,6 +40,6 @@ MANIFEST = dict(
 
 
 def run(ctx):
-    variant, wform, cov = sigrun.run(ctx, PROPS, LEVEL)
-    return ctx.finish(LEVEL, cov, assumptions=sigrun.assumptions(variant, wform), trusted_base=sigrun.TRUSTED,
+    variant, wform, sform, cov = sigrun.run(ctx, PROPS, LEVEL)
+    return ctx.finish(LEVEL, cov, assumptions=sigrun.assumptions(variant, wform, sform), trusted_base=sigrun.TRUSTED,
                       checker_cmd="lake build PdshVerif.Props.C20 && #print axioms on every theorem of Props/C20.lean")
